@@ -13,6 +13,7 @@ from torch.nn import Module
 import torch.nn.functional as F
 
 from deepali.core import functional as U
+from deepali.core.enum import PaddingMode
 from deepali.core.grid import Axes, Grid
 from deepali.core.linalg import as_homogeneous_matrix, homogeneous_matmul
 from deepali.core.typing import Device
@@ -335,7 +336,8 @@ class SpatialTransform(DeviceProperty, Module, metaclass=ABCMeta):
             # - Use F.grid_sample() to resample displacement field and adjust vectors.
             if grid != self.grid() or align_corners != self.align_corners():
                 flow = FlowFields(data, grid=self.grid().reshape(data.shape[2:]))
-                flow = flow.sample(grid)
+                flow = flow.sample(grid, padding=PaddingMode.BORDER)
+                flow = flow.axes(Axes.from_grid(grid))
                 data = flow.tensor()
             # Displacement field with same domain as output grid, but differing size
             # - Use F.interpolate() to resize displacement field.
